@@ -99,6 +99,11 @@ def run_case(o, case):
         info["x_is_xvar"] = info["x_is_xvar"] and (x is o.xvar)
         if p["kind"] == "raise":
             raise ZeroDivisionError("model function raised")
+        if p["kind"] == "model":
+            # a real model function: finite value, non-finite intermediate (see C09.search (a3))
+            if p["form"] == "logistic":
+                return p["c"] + 1 / (1 + np.exp(a[0] * (a[1] - x)))
+            return p["c"] + 1 / (a[0] + 1 / x)
         return pv
     try:
         r = o.negloglike(case.get("a", [1.0]), eq_numpy)
